@@ -64,8 +64,9 @@ extern "C" void h_deep_less() {
     VASSERT(!(ab && ba), "asymmetric");
     VASSERT(!(ab && bc) || ac, "transitive");
     VASSERT(!(!ab && !ba && !bc && !cb) || (!ac && !ca), "incomparability is transitive");
-    VASSERT(ab == (var_of(a.x) < var_of(b.x)), "order is the order of the variable ids (factor/variable order of a product is irrelevant)");
-    if (is_times[a.x] && is_times[b.x] && a.x != b.x && var_of(a.x) == var_of(b.x)) { VASSERT(!ab && !ba, "products over the same variable are equivalent"); VWITNESS("two-products-same-variable"); }
+    VASSERT(ab == (var_of(a.x) < var_of(b.x) || (var_of(a.x) == var_of(b.x) && a.x < b.x)), "order is the order of the variable ids (factor/variable order of a product is irrelevant), then of the term ids");
+    VASSERT(a.x == b.x || ab || ba, "total on different terms: no ties, so a sorted argument list is unique");
+    if (is_times[a.x] && is_times[b.x] && a.x != b.x && var_of(a.x) == var_of(b.x)) { VASSERT(ab != ba, "products over the same variable are ordered, not tied"); VWITNESS("two-products-same-variable"); }
     if (is_times[a.x] && pt[a.x][3] == var_of(a.x)) { VWITNESS("product-with-variable-first"); }
     if (ab && bc) { VWITNESS("chain"); }
     VWITNESS("compared");
@@ -99,14 +100,16 @@ extern "C" void h_termsort_arith() {     // ArithLogic::termSort with the deep c
     VWITNESS("sorted"); if (is_times[in[0]]) { VWITNESS("product-sorted"); }
     if (var_of(in[0]) > var_of(in[1]) && var_of(in[1]) > var_of(in[2])) { VWITNESS("reversed-input"); }
 }
-// Consequence used by hash-consing of commutative arithmetic terms (a linear sum has one summand per variable): a sorted rearrangement
-// of summands over pairwise different variables is unique, hence independent of the input order. Decided here directly for 2 summands.
+// Consequence used by hash-consing of commutative terms (=, distinct, +, * sort their arguments with this comparator): the sorted
+// rearrangement is unique, hence independent of the input order - also for v, (* 2 v), (* 3 v), which used to be ties (repaired in
+// /repo a134439). Decided here directly for 2 arguments.
 extern "C" void h_termsort_arith_order() {
     build_terms();
     uint32_t in[2], p[2], o1[2], o2[2]; in[0] = pick(NT); in[1] = pick(NT); p[0] = in[1]; p[1] = in[0];
     sortN<2>(true, in, o1); sortN<2>(true, p, o2);
     VASSERT(!bad_ref, "only the sorted terms and their children are inspected");
-    if (var_of(in[0]) != var_of(in[1])) { VASSERT(o1[0] == o2[0] && o1[1] == o2[1], "summands over different variables: result does not depend on the order of the arguments"); VWITNESS("different-variables"); }
-    else { VASSERT(var_of(o1[0]) == var_of(o2[0]) && var_of(o1[1]) == var_of(o2[1]), "same variable: results agree up to equivalence"); }
+    VASSERT(o1[0] == o2[0] && o1[1] == o2[1], "result does not depend on the order of the arguments");
+    if (var_of(in[0]) != var_of(in[1])) { VWITNESS("different-variables"); }
+    else if (in[0] != in[1]) { VWITNESS("same-variable-different-terms"); }
     VWITNESS("sorted");
 }
